@@ -106,7 +106,24 @@ def search_export_history(failure):
     return None
 
 
-SEARCHERS = {'inflection': search_inflection, 'paths': search_paths, 'paths_esm': search_paths, 'export_chain': search_export_history, 'registry': search_export_history}
+def search_lexical(failure):
+    ob = failure['obligation']
+    names = ['', 'a', '1a', 'a b', 'a"b', 'a\\b', 'a\nb', '"', '\\', 'é', '_', '$x', 'a-b'] + [s for s in strings(['a', '"', '\\', '1', ' '], 3)]
+    docs = [[' a'], ['/ x'], [' a */ b'], [' **/*.rs'], [' x *'], ['*', '/'], [' a\n b */ c\n'], [' a\n*/'], ['/\n'], [' a *', '/ b'], []]
+    docs += [[''.join(t)] for t in itertools.product(['*', '/', ' ', 'a', '\n'], repeat=3)]
+    reqs = [{'op': 'ts_field_name', 's': n} for n in names] + [{'op': 'parse_docs', 'docs': d} for d in docs]
+    if 'field-name' in ob or 'quote' in ob:
+        reqs = [r for r in reqs if r['op'] == 'ts_field_name']
+    if 'C15' in ob or 'doc' in ob:
+        reqs = [r for r in reqs if r['op'] == 'parse_docs']
+    outs = batch(reqs)
+    for rq, o in zip(reqs, outs):
+        if not o.get('agree', True):
+            return {'request': rq, 'result': o}
+    return None
+
+
+SEARCHERS = {'inflection': search_inflection, 'paths': search_paths, 'paths_esm': search_paths, 'export_chain': search_export_history, 'registry': search_export_history, 'lexical': search_lexical}
 
 
 def search(pid, unit, failure, seed):
